@@ -63,6 +63,9 @@ def classify(backend, issue):
         return "%s:encoder-reject:%s" % (backend, compz.normalise(msg))
     if kind.startswith("import"):
         module, _, n = name.partition("::")
+        if kind == "import-unoffered" and re.search(r"\[(future|stream)-[a-z-]+-(\d+|unit)\]", n):
+            # one root cause per backend: the per-function payload type index / intrinsic spelling
+            return "%s:import-unoffered:payload-intrinsic" % backend
         where = "[export]" if module.startswith("[export]") else ""
         where += "$root" if module.endswith("$root") else "iface"
         return "%s:%s:%s:%s" % (backend, kind, where, extract_decls.shape(n))
